@@ -58,17 +58,20 @@ package container
 //@   requires s != nil
 //@   modifies *s, elems(*s)
 //@   ensures  "lifo": seq(*s) == snoc(old(seq(*s)), i)
+//@   ensures  "buffer-same-or-fresh": (arrayOf(*s) == old(arrayOf(*s)) || fresh(*s)) && len(*s) == old(len(*s)) + 1
 //
 //@ func (s *Stack[T]) PushAll(i []T)
 //@   requires s != nil
 //@   modifies *s, elems(*s)
 //@   ensures  "lifo": seq(*s) == old(seq(*s)) ++ old(seq(i))
+//@   ensures  "buffer-same-or-fresh": arrayOf(*s) == old(arrayOf(*s)) || fresh(*s)
 //
 //@ func (s *Stack[T]) Pop() (res T)
 //@   requires s != nil
 //@   requires "nonempty": len(*s) > 0
 //@   modifies *s
 //@   ensures  "lifo": res == old(seq(*s))[len(old(seq(*s))) - 1] && seq(*s) == old(seq(*s))[:len(old(seq(*s))) - 1]
+//@   ensures  "buffer-same": arrayOf(*s) == old(arrayOf(*s)) && len(*s) == old(len(*s)) - 1
 //
 //@ func (s *Stack[T]) Peek() (res T)
 //@   requires s != nil
@@ -83,3 +86,4 @@ package container
 //@   requires s != nil
 //@   modifies *s
 //@   ensures  "empty": len(*s) == 0 && len(seq(*s)) == 0
+//@   ensures  "buffer-same": arrayOf(*s) == old(arrayOf(*s))
